@@ -1283,16 +1283,23 @@ class ManifestRecursiveLoader:
                         mm.entries.append(fe)
                         self.updated_manifests.add(mmpath)
                     else:
-                        if ftype == 'AUX':
+                        if fe.tag == 'AUX':
                             # AUX has implicit files/ prefix in .path
                             # but for now, we've shoved our path
                             # into .aux_path
-                            fe.path = os.path.relpath(fe.aux_path,
+                            newpath = os.path.relpath(fe.aux_path,
                                                       mdirpath)
-                            assert path_inside_dir(fe.path, 'files')
-                            # drop files/ prefix for the entry
-                            fe.aux_path = os.path.relpath(
-                                fe.path, 'files')
+                            if path_inside_dir(newpath, 'files'):
+                                fe.path = newpath
+                                # drop files/ prefix for the entry
+                                fe.aux_path = os.path.relpath(
+                                    fe.path, 'files')
+                            else:
+                                # the Manifest it goes into is not
+                                # the one of the package directory
+                                fe = new_manifest_entry(
+                                    'DATA', newpath, fe.size,
+                                    fe.checksums)
                         else:
                             fe.path = os.path.relpath(fe.path, mdirpath)
                         # do not add duplicate entry if the path is ignored
